@@ -636,6 +636,83 @@ def c03_12(ctx):
         ctx.check(ok, "nop-without-flag:%s" % fn.name, ctx.where(fn), "%s is not a NOP when its flag is unset" % fn.name)
 
 
+# ------------------------------------------------------------------ C03.14
+def c03_14(ctx):
+    """stack-shape inference: run each pure stack-manipulation handler in the abstract interpreter on a stack of
+    opaque tokens (no values, no solver) and compare the resulting shape with the consensus stack diagram"""
+    lk = _lookup(ctx)
+    it = ctx.fresh_interp()
+    from sa.interp import Unsupported, PyRaise
+    by_name = {}
+    for v, f in enumerate(lk):
+        name = SPEC.NAMES.get(v)
+        if name:
+            by_name[name] = (v, f)
+    for name, (n_in, outs) in sorted(SPEC.STACK_EFFECTS.items()):
+        v, f = by_name[name]
+        fi = _finfo(ctx, f)
+        where = fi.where if fi else STACKOPS + ":1"
+        below = ["b0", "b1"]
+        tokens = ["x%d" % i for i in range(n_in)]
+        stack = below + tokens
+        try:
+            it.call(f, [stack], {})
+            got = stack[len(below):] if stack[:len(below)] == below else None
+        except (Unsupported, PyRaise) as e:
+            got = "error: %s" % e
+        want = [tokens[i] for i in outs]
+        ctx.check(got == want, "stack-effect:%s" % name, where, "%s transforms (%s) into (%s); the consensus stack diagram gives (%s)" % (name, " ".join(tokens), got if isinstance(got, str) else " ".join(got or ["<touches deeper items>"]), " ".join(want)),
+                  sample={"opcode": name, "in": tokens, "out": got} if name in ("OP_ROT", "OP_2ROT", "OP_TUCK") else None)
+        # underflow must not be silent: with one item too few the handler raises (IndexError -> funnelled by VM.pop / __getitem__)
+        short = tokens[: n_in - 1]
+        try:
+            it.call(f, [list(short)], {})
+            under = "no error"
+        except PyRaise as e:
+            under = type(e.exc).__name__
+        except Unsupported as e:
+            under = "unsupported"
+        ctx.check(under in ("IndexError",), "stack-underflow:%s" % name, where, "%s on a stack with %d item(s) ends with %s; it must fail (IndexError, converted to ScriptError by the VM accessors)" % (name, n_in - 1, under), what="underflow:%s" % name, sample=None)
+    for name, want in sorted(SPEC.HASH_OPS.items()):
+        v, f = by_name[name]
+        fi = _finfo(ctx, f)
+        body = [norm(s) for s in fi.node.body] if fi else []
+        ctx.check(body == ["stack.append(%s)" % want], "hash-op:%s" % name, fi.where if fi else STACKOPS + ":1", "%s is `%s`, expected push %s" % (name, body, want), what="hash:%s" % name, sample=None)
+    # the VM funnels list errors of the raw handlers into ScriptError
+    vm = ctx.p.cls(VM, "VM")
+    for m in ("pop", "__getitem__"):
+        f = vm.methods[m]
+        t = norm(f.node)
+        ctx.check("except IndexError:" in t and "raise ScriptError(" in t, "underflow-funnel:%s" % m, ctx.where(f), "VM.%s does not convert IndexError into ScriptError" % m)
+    # remaining simple handlers
+    simple = {"OP_DEPTH": ["vm.push_int(len(vm.stack))"], "OP_SIZE": ["vm.push_int(len(vm[-1]))"], "OP_TOALTSTACK": ["vm.altstack.append(vm.pop())"],
+              "OP_CODESEPARATOR": ["vm.begin_code_hash = vm.pc"], "OP_EQUAL": ["v1, v2 = [vm.pop() for i in range(2)]", "vm.append(vm.bool_to_script_bytes(v1 == v2))"],
+              "OP_NOT": ["vm.append(vm.bool_to_script_bytes(not pop_check_bounds(vm)))"], "OP_0NOTEQUAL": ["vm.append(vm.bool_to_script_bytes(pop_check_bounds(vm) != 0))"],
+              "OP_WITHIN": ["v3, v2, v1 = [pop_check_bounds(vm) for i in range(3)]", "ok = v2 <= v1 < v3", "vm.append(vm.bool_to_script_bytes(ok))"],
+              "OP_PICK": None, "OP_ROLL": None, "OP_FROMALTSTACK": None}
+    for name, want in simple.items():
+        v, f = by_name[name]
+        fi = _finfo(ctx, f)
+        body = [norm(s) for s in fi.node.body if not (isinstance(s, ast.Expr) and isinstance(s.value, ast.Constant))]
+        if want is not None:
+            ctx.check(body == want, "handler:%s" % name, fi.where, "%s is %s; consensus semantics: %s" % (name, body, want), what="handler:%s" % name, sample={"opcode": name, "body": body} if name == "OP_WITHIN" else None)
+    for name, expr in (("OP_PICK", "vm.append(vm[-v - 1])"), ("OP_ROLL", "vm.append(vm.pop(-v - 1))")):
+        v, f = by_name[name]
+        fi = _finfo(ctx, f)
+        t = norm(fi.node)
+        ctx.check(expr in t and "if v < 0:" in t and "v = pop_check_bounds(vm)" in t, "handler:%s" % name, fi.where, "%s does not copy/move the item n back (n >= 0, bounded)" % name)
+    v, f = by_name["OP_FROMALTSTACK"]
+    fi = _finfo(ctx, f)
+    ctx.check("if len(vm.altstack) < 1:" in norm(fi.node) and "vm.append(vm.altstack.pop())" in norm(fi.node), "handler:OP_FROMALTSTACK", fi.where, "OP_FROMALTSTACK does not move the top of the alt stack (failing when empty)")
+    v, f = by_name["OP_IFDUP"]
+    fi = _finfo(ctx, f)
+    t = norm(fi.node)
+    ctx.check("if _cast_to_bool(stack[-1]):" in t and "stack.append(stack[-1])" in t, "handler:OP_IFDUP", fi.where, "OP_IFDUP does not duplicate the top item exactly when it is true")
+    cb = ctx.func(STACKOPS, "_cast_to_bool")
+    t = norm(cb.node)
+    ctx.check("for i, b in enumerate(v):" in t and "if b != 0:" in t and "return not (i == len(v) - 1 and b == 128)" in t and t.rstrip().endswith("return False"), "cast-to-bool", ctx.where(cb), "_cast_to_bool is not CastToBool (any non-zero byte, except a sole trailing 0x80)")
+
+
 def c03_13(ctx):
     from rules.C06 import cache_scope
     cache_scope(ctx)
@@ -652,6 +729,8 @@ OBLIGATIONS = [
     Ob("C03.8", "flag plumbing across scriptSig / scriptPubKey / P2SH / witness stages", c03_8, floor=20, engines="DF,GI"),
     Ob("C03.9", "LOW_S compares with the group order", c03_9, floor=2, engines="MK", breaks_if="s in (n/2, p/2]"),
     Ob("C03.10", "conditional stack guards, MINIMALIF, pop only when executing", c03_10, floor=8, engines="GI"),
+    Ob("C03.14", "stack-shape inference of the pure stack opcodes vs the consensus stack diagrams; hash opcodes; simple handlers", c03_14, floor=40, engines="CE(abstract stack),SIB",
+       breaks_if="any script using the opcode (ROT / 2ROT / TUCK permutations, WITHIN bounds)"),
     Ob("C03.13", "sighash cache of CHECKSIG/CHECKMULTISIG is call-local (shared with C06.2)", c03_13, floor=7, engines="EF,DF",
        breaks_if="two CHECKSIGs sharing a hash type where the second signature appears in the script (FindAndDelete)"),
     Ob("C03.12", "CLTV / CSV comparison rules (masked values, eras, preconditions)", c03_12, floor=9, engines="DF,GI", breaks_if="nSequence with unused upper bits set"),
